@@ -14,7 +14,7 @@ def main():
     ctx = lib.Ctx(a.prop, a.tier, lib.env_seed())
     if a.replay:
         ctx.replay = json.load(open(a.replay))
-        rc = mod.replay(ctx) if hasattr(mod, "replay") else mod.run(ctx)
+        rc = mod.replay(ctx) if hasattr(mod, "replay") else lib.generic_replay(ctx)
     else:
         ctx.replay = None
         rc = mod.run(ctx)
